@@ -4,7 +4,7 @@
 id=$1; thr=${2:-6}; wt=/tmp/wt_$id; sd=/tmp/seed_$id; log=$sd/confirm.log
 export CARGO_NET_OFFLINE=true
 cd $wt || exit 2
-git checkout -q -- . && git clean -fdq -e target
+git reset -q --hard && git clean -fdq -e target
 : > $log
 git apply --whitespace=nowarn $sd/patch.diff || { echo "patch does not apply" | tee -a $log; exit 2; }
 echo "== suite with patch" >> $log
@@ -21,5 +21,5 @@ echo "== demo with patch: $demo" >> $log
 git apply -R --whitespace=nowarn $sd/patch.diff
 echo "== demo without patch" >> $log
 ( eval "$demo" ) 2>&1 | grep -E "^test result|panicked|FAILED|failed" | head -8 >> $log
-git checkout -q -- . && git clean -fdq -e target
+git reset -q --hard && git clean -fdq -e target
 cat $log
